@@ -60,3 +60,48 @@ def build_type(ty, rng=None):
         return build(ty, rng), None
     except Exception as e:
         return None, e
+
+
+def escape_site(exc):
+    """Innermost frame of `exc`'s traceback that lies inside the pane package: 'module.function'."""
+    import os
+    import traceback
+    prefix = os.path.join(env.PANE_REPO, 'pane') + os.sep
+    site = None
+    for fs in traceback.extract_tb(exc.__traceback__):
+        if fs.filename.startswith(prefix):
+            site = f"{os.path.basename(fs.filename)[:-3]}.{fs.name}"
+    return site or 'outside-pane'
+
+
+def fingerprint(v, depth=0):
+    """Deep structural fingerprint incl. container identity; equal before/after <=> input untouched."""
+    import collections.abc
+    if depth > 12:
+        return ('deep',)
+    t_ = type(v)
+    if t_ in (int, float, complex, bool, str, bytes, type(None)):
+        return (t_.__name__, repr(v))
+    if t_ is bytearray:
+        return ('bytearray', id(v), bytes(v))
+    inner = getattr(v, '_d', None) if t_.__name__ in ('CustomMap',) else None
+    if inner is not None:
+        return (t_.__name__, id(v), fingerprint(inner, depth + 1))
+    inner = getattr(v, '_l', None) if t_.__name__ in ('CustomSeq',) else None
+    if inner is not None:
+        return (t_.__name__, id(v), fingerprint(inner, depth + 1))
+    if isinstance(v, collections.abc.Mapping):
+        return (t_.__name__, id(v), len(v), tuple((fingerprint(k, depth + 1), fingerprint(x, depth + 1)) for k, x in v.items()))
+    if isinstance(v, (set, frozenset)):
+        return (t_.__name__, id(v), len(v), tuple(sorted((repr(fingerprint(x, depth + 1)) for x in v))))
+    if isinstance(v, collections.abc.Sequence) or t_.__name__ == 'deque':
+        return (t_.__name__, id(v), len(v), tuple(fingerprint(x, depth + 1) for x in v))
+    if hasattr(t_, '__pane_info__'):
+        fs = tuple((f.name, fingerprint(getattr(v, f.name, '<unset>'), depth + 1)) for f in t_.__pane_info__.fields)
+        ps = getattr(v, '__pane_set__', None)
+        return (t_.__name__, id(v), fs, id(ps), tuple(sorted(ps)) if ps is not None else None)
+    if t_.__module__ == 'numpy':
+        return (t_.__name__, id(v), getattr(v, 'shape', None), v.tobytes() if hasattr(v, 'tobytes') else repr(v))
+    if t_.__name__ == 'ValueOrList':
+        return (t_.__name__, id(v), v._is_val, fingerprint(v._inner, depth + 1))
+    return (t_.__name__, id(v), repr(v))
